@@ -1,0 +1,8 @@
+//go:build !verif
+
+// Package verifhook provides the scheduling points used by the external verification harness.
+// Without the build tag `verif` Point is an empty function.
+package verifhook
+
+// Point marks a place where a background job hands over to the service loop.
+func Point(owner any, name string, args ...any) {}
